@@ -144,6 +144,7 @@ def eqAssigns : List Assign → List Assign → Bool
   | a :: as, b :: bs =>
     a.name = b.name && (match a.value, b.value with
       | .scalar v, .scalar v' => eqWord v v'
+      | .array ws, .array ws' => eqWords ws ws'
       | _, _ => false) && eqAssigns as bs
   | _, _ => false
 
@@ -151,7 +152,7 @@ def eqAssigns : List Assign → List Assign → Bool
 def simpleModelled (c : SimpleCommand) : Bool :=
   c.assigns.all (fun a => match a.value with
     | .scalar v => modelledWord v && !anyTilde v && !hasUnquotedTilde v
-    | .array _ => false) &&
+    | .array ws => ws.all fun w => modelledWord w && !hasLaterTilde w && !w.isEmpty) &&
   c.words.all (fun w => modelledWord w && !hasLaterTilde w && !w.isEmpty &&
     !(hasUnquotedTilde w && (assignOf w).isSome)) &&
   c.redirs.all (fun r => modelledWord (redirWord r) && !hasLaterTilde (redirWord r) && !(redirWord r).isEmpty)
